@@ -294,6 +294,16 @@ fn build_cases(tier: Tier) -> Vec<Case> {
                 c.label = format!("C {e:?} all={} delivered {what}", fr.tag());
                 v.push(c);
             }
+            // every other Source app speaking protocol 7 (old servers, The Ship among them) keeps the size field
+            if !e.gold() && e != EngineCfg::Css240 && matches!(fr, Fr::SourceEven(3) | Fr::SourceCompressed(2)) {
+                for which in 1 .. 3 {
+                    let mut c = base(e, 0);
+                    c.protocol = Some(7);
+                    c.framing[which] = fr.clone();
+                    c.label = format!("C {e:?} protocol=7 (size field present) {}={}", ["info", "players", "rules"][which], fr.tag());
+                    v.push(c);
+                }
+            }
             // Counter-Strike: Source servers speaking protocol 7 send split packets without the size field
             if e == EngineCfg::Css240 {
                 for which in 1 .. 3 {
